@@ -314,6 +314,37 @@ func (fr *Frame) collectDebug() {
 // lookupLocal resolves a Go local variable name to a symbolic value, as seen at loop header h
 // (nil: at function exit).
 func (fr *Frame) lookupLocal(name string, h *ssa.BasicBlock) (Val, bool) {
+	if h != nil && name == "rangeslice" {
+		// the slice a `for ... range <expr>` loop iterates over (the expression has no name in the source)
+		for _, in := range h.Instrs {
+			p, ok := in.(*ssa.Phi)
+			if !ok || p.Comment != "rangeindex" {
+				continue
+			}
+			for _, r := range *p.Referrers() {
+				bo, ok := r.(*ssa.BinOp)
+				if !ok || bo.Op != token.ADD || bo.X != ssa.Value(p) {
+					continue
+				}
+				for _, r2 := range *bo.Referrers() {
+					switch ix := r2.(type) {
+					case *ssa.IndexAddr:
+						if ix.Index == ssa.Value(bo) {
+							if v, ok := fr.vals[ix.X]; ok {
+								return v, true
+							}
+						}
+					case *ssa.Index:
+						if ix.Index == ssa.Value(bo) {
+							if v, ok := fr.vals[ix.X]; ok {
+								return v, true
+							}
+						}
+					}
+				}
+			}
+		}
+	}
 	if h != nil {
 		for _, in := range h.Instrs {
 			if p, ok := in.(*ssa.Phi); ok && p.Comment == name {
